@@ -90,7 +90,7 @@ def check_matrix(case, ctx):
                                 f'{name}/{rep}: {k} shape {w.shape} vs '
                                 f'{v.shape}', entry=name, rep=rep, key=k)
             a, b = v, w
-            if name == 'Background2D' and rep in INT_REPS:
+            if name.startswith('Background2D') and rep in INT_REPS:
                 # excepted by the property: meshes and maps are cast
                 # (truncated) to the integer input dtype at two stages
                 a, b = np.round(v), np.round(w)
